@@ -476,7 +476,9 @@ class HomothetyOperator(AbstractLinearOperator):
         return super().__matmul__(other)
 
     def mv(self, x: PyTree[Inexact[Array, '...']]) -> PyTree[Inexact[Array, '...']]:
-        return jax.tree.map(lambda leaf: self.value * leaf, x)
+        # the output structure is the input structure: keep the dtype of every leaf, also when the
+        # value is wider than a leaf or has lost its weak type on the way (e.g. inside a solver)
+        return jax.tree.map(lambda leaf: (self.value * leaf).astype(leaf.dtype), x)
 
     def inverse(self) -> AbstractLinearOperator:
         return HomothetyOperator(1 / self.value, self._in_structure)
